@@ -180,6 +180,14 @@ def _gen_script(rng, kind, faulty):
         s["out"] = rng.choice(["garbage", "empty", "missing_row", "truncated"])
     elif f == "tree":
         s["tree"] = rng.choice(["missing", "empty", "garbage"])
+        if kind == "muscle3":
+            # MUSCLE 3 writes two trees (first and second iteration): the fault hits both, only the first, or only the
+            # second one (derived from tool_seed, not drawn)
+            which = s["tool_seed"] % 3
+            if which == 1:
+                s["tree1"], s["tree"] = s["tree"], "ok"
+            elif which == 2:
+                s["tree1"] = "ok"
     elif f == "eval":
         s["eval"] = "fail"
         if kind != "stubpoll":
@@ -251,7 +259,8 @@ def _gen_setter(rng, kind, nseq):
     name = rng.choice(SETTERS[kind])
     op = {"op": name}
     if name == "add_options":
-        op["options"] = rng.choice([["--x-a"], ["--x-b", "--x-c"], []])
+        # (the last one carries a NUL character: accepted by the setter, refused by Popen's own argument checking)
+        op["options"] = rng.choice([["--x-a"], ["--x-b", "--x-c"], [], ["--x-a"], ["--x-b", "--x-c"], ["--x-nul\0byte"]])
     elif name == "set_exec_dir":
         op["dir"] = rng.choice(["exec", "exec", "exec2", "missing"])
     elif name == "set_distance_matrix":
@@ -1291,6 +1300,10 @@ class Sim:
         elif rec.kind != "stubpoll" and rec.exec_dir_path is not None and not os.path.isdir(rec.exec_dir_path):
             expect_fail = FileNotFoundError
             self.res.stats["fault:exec-dir-missing"] += 1
+        elif rec.kind != "stubpoll" and any("\0" in o for o in rec.extras):
+            # refused by Popen's argument checking (ValueError, not an OSError), before the operating system is asked
+            expect_fail = ValueError
+            self.res.stats["fault:launch-nul-in-argument"] += 1
         elif script["launch"] != "ok":
             expect_fail = {"enoent": FileNotFoundError, "eacces": PermissionError, "eagain": OSError,
                            "interrupt": sw.INJECTED_CLASSES}[script["launch"]]
@@ -1440,6 +1453,8 @@ class Sim:
         if s.get("out", "ok") != "ok":
             return "out"
         tr = s.get("tree", "ok")
+        if k == "muscle3" and "garbage" in (tr, s.get("tree1", tr)):
+            return "tree"
         if tr != "ok":
             if k == "clustalo" and "tree" not in rec.settings:
                 return "tree"
@@ -1676,7 +1691,10 @@ class Sim:
                 if val != rec.settings["tree"]:
                     self.fail("result:guide-tree", kind=k, what="input tree not returned")
                 return "ok"
-            if k == "muscle3" and rec.script.get("tree") in ("missing", "empty"):
+            tfault = rec.script.get("tree", "ok")
+            if k == "muscle3" and name == "get_guide_tree_kmer":
+                tfault = rec.script.get("tree1", tfault)  # the first-iteration tree has a fault of its own
+            if k == "muscle3" and tfault in ("missing", "empty"):
                 if val is not None:
                     self.fail("result:guide-tree", kind=k, what="tree although the tool wrote none")
                 return "ok:none"
